@@ -4,12 +4,25 @@
 // iterator (the native reference the specification is validated against).
 package rt
 
-import "iter"
+import (
+	"iter"
+	"runtime"
+)
 
 type Rec struct {
 	Log    [][]any
 	Tape   []bool
 	Budget int
+
+	// C17: periodic tape and call-depth probe
+	Pattern   []bool // when set, an exhausted Tape is refilled from Pattern, Repeat times
+	Repeat    int
+	Quiet     bool     // do not append tape reads to Log (millions of iterations)
+	Probe     bool     // sample the call depth at tape reads number 10, 100, 1000, ... and the last one
+	Reads     int      // number of tape reads so far
+	Samples   [][2]int // (read number, depth in frames)
+	LastDepth [2]int
+	pcs       []uintptr
 }
 
 func NewRec(tape []bool, budget int) *Rec {
@@ -21,10 +34,19 @@ func (r *Rec) spend() {
 		panic("budget")
 	}
 	r.Budget--
+	if r.Probe {
+		r.Reads++
+		if ProbeAll || isPow10(r.Reads) {
+			r.Samples = append(r.Samples, [2]int{r.Reads, r.depth()})
+		}
+	}
 }
 
 func (r *Rec) log(tag string, id int, vals ...int) {
 	r.spend()
+	if r.Quiet {
+		return
+	}
 	e := make([]any, 0, 2+len(vals))
 	e = append(e, tag, id)
 	for _, v := range vals {
@@ -49,8 +71,37 @@ func (r *Rec) V(id, x int) int { r.log("v", id, x); return x }
 func (r *Rec) N(id int, vals ...int) { r.log("n", id, vals...) }
 
 // T reads the next bit of the input tape (false when exhausted).
+func (r *Rec) depth() int {
+	if r.pcs == nil {
+		r.pcs = make([]uintptr, 1<<22)
+	}
+	return runtime.Callers(0, r.pcs)
+}
+
+func isPow10(n int) bool {
+	for n >= 10 && n%10 == 0 {
+		n /= 10
+	}
+	return n == 1
+}
+
+// ProbeAll samples the depth at every tape read (delegation-depth series).
+var ProbeAll = false
+
 func (r *Rec) T(id int) bool {
 	r.spend()
+	if len(r.Tape) == 0 && r.Repeat > 0 {
+		r.Repeat--
+		r.Tape = r.Pattern
+	}
+	if r.Quiet {
+		if len(r.Tape) == 0 {
+			return false
+		}
+		b := r.Tape[0]
+		r.Tape = r.Tape[1:]
+		return b
+	}
 	if len(r.Tape) == 0 {
 		r.Log = append(r.Log, []any{"t", id, 0})
 		return false
